@@ -200,9 +200,28 @@ json_t *json_object_get(const json_t *object, const char *key)
 		return NULL;
 	if (vj_is_tracked(key))
 		return (json_t *)o->tracked;
+#ifdef VERIF_WELLFORMED
+	/* COMPLETENESS units (C08): the object is a WELL-FORMED JWK -- every member the importers ask
+	 * for is present and is a string, except that the private-only members (d p q dp dq qi) are
+	 * present exactly when the key is private (ghost g_wf_private) and "alg" is optional. */
+	{
+		extern int g_wf_private;
+		_Bool priv_only = (key[0] == 'd' && (key[1] == 0 || ((key[1] == 'p' || key[1] == 'q') && key[2] == 0))) ||
+			((key[0] == 'p' || key[0] == 'q') && key[1] == 0) || (key[0] == 'q' && key[1] == 'i' && key[2] == 0);
+		if (priv_only && !g_wf_private)
+			return NULL;
+		if (key[0] == 'a' && key[1] == 'l' && key[2] == 'g' && key[3] == 0 && nondet_bool())
+			return NULL;
+		vj_t *n = malloc(sizeof(*n));
+		__CPROVER_assume(n != NULL);
+		n->type = JSON_STRING; n->refcount = 1; n->ival = 0; n->sval = vj_nondet_string(); n->tracked = NULL; n->asize = 0;
+		return (json_t *)n;
+	}
+#else
 	if (nondet_bool())
 		return NULL;
 	return (json_t *)vj_any_shallow();	/* borrowed; arbitrary type */
+#endif
 }
 
 #ifdef VJ_ARRAY_STATIC_ELEM
